@@ -11,28 +11,50 @@
 (* Property decided here: C10.                                             *)
 (***************************************************************************)
 EXTENDS Integers, Sequences, FiniteSets, TLC
-CONSTANTS Chunks, PreDest        \* number of chunks in the stream; PreDest \in {"absent","old"}
-VARIABLES dest, tmp, got, lastSeen, synced, verified, phase
-vars == <<dest, tmp, got, lastSeen, synced, verified, phase>>
+CONSTANTS PreDest,               \* what the destination path holds beforehand: "absent" or "old"
+          RequireEnd,            \* TRUE: as implemented; FALSE: the fill loop's end-marker demand dropped (must-violate configuration)
+          Chunks                 \* model-checking bound on the number of writes (used only by StateBound)
+VARIABLES dest, tmp, got, lastSeen, synced, verified, phase, mode
+vars == <<dest, tmp, got, lastSeen, synced, verified, phase, mode>>
+\* dest : "absent" | "old" | "partial" | "complete"        tmp : "absent" | "empty" | "partial" | "complete"
+\* mode : "blocking" (write_file / pull_consume: the reader itself reports a missing end marker or a failed request)
+\*        "async"    (run_pull: the consuming thread reads a channel and sees plain EOF when the pull loop stops for
+\*                    any reason; the pull loop's error is surfaced afterwards, before the consumer's result is used)
 \* phase: "start" | "filling" | "filled" | "synced" | "verifiedOk" | "committed" | "failed" | "cleaned" | "killed"
-Init == dest = PreDest /\ tmp = "absent" /\ got = 0 /\ lastSeen = FALSE /\ synced = FALSE /\ verified = FALSE /\ phase = "start"
-CreateTmp == phase = "start" /\ tmp' = "empty" /\ phase' = "filling" /\ UNCHANGED <<dest, got, lastSeen, synced, verified>>
-WriteChunk == /\ phase = "filling" /\ got < Chunks /\ got' = got + 1
-              /\ tmp' = IF got + 1 = Chunks THEN "complete" ELSE "partial"
-              /\ lastSeen' = (got + 1 = Chunks) /\ UNCHANGED <<dest, synced, verified, phase>>
-EndFill == phase = "filling" /\ lastSeen /\ phase' = "filled" /\ UNCHANGED <<dest, tmp, got, lastSeen, synced, verified>>
-\* a stream of zero chunks never happens: an empty payload is one empty final chunk (Chunks >= 1)
-Sync == phase = "filled" /\ synced' = TRUE /\ phase' = "synced" /\ UNCHANGED <<dest, tmp, got, lastSeen, verified>>
-Verify(ok) == /\ phase = "synced"
+Init == dest = PreDest /\ tmp = "absent" /\ got = 0 /\ lastSeen = FALSE /\ synced = FALSE /\ verified = FALSE /\ phase = "start" /\ mode \in {"blocking", "async"}
+\* File::create(<dest>.svspart)
+CreateTmp == phase = "start" /\ tmp' = "empty" /\ phase' = "filling" /\ UNCHANGED <<dest, got, lastSeen, synced, verified, mode>>
+\* one write() of received content to the temp file; `full` says whether the temp file now holds the whole content
+WriteChunk(full) == /\ phase = "filling" /\ ~lastSeen /\ tmp # "complete" /\ got' = got + 1
+                    /\ tmp' = IF full THEN "complete" ELSE "partial"
+                    /\ UNCHANGED <<dest, lastSeen, synced, verified, phase, mode>>
+\* the response carrying the end marker arrived (only a producer that emitted everything sends it)
+SeeEnd == phase = "filling" /\ ~lastSeen /\ tmp = "complete" /\ lastSeen' = TRUE /\ UNCHANGED <<dest, tmp, got, synced, verified, phase, mode>>
+\* the fill loop returns Ok.  blocking: only after the end marker (ChunkReader errors otherwise, write_file re-checks
+\* last_seen).  async: the channel reader returns EOF as soon as the pull loop stops, end marker or not.
+EndFill == phase = "filling" /\ ((mode = "blocking" /\ RequireEnd) => lastSeen) /\ phase' = "filled" /\ UNCHANGED <<dest, tmp, got, lastSeen, synced, verified, mode>>
+\* flush + sync_all
+Sync == phase = "filled" /\ synced' = TRUE /\ phase' = "synced" /\ UNCHANGED <<dest, tmp, got, lastSeen, verified, mode>>
+\* the caller's verifier (plain pulls: trivially ok)
+Verify(ok) == /\ phase = "synced" /\ (RequireEnd => lastSeen)      \* async: `pull_res?` passed before the consumer's value is used
               /\ IF ok THEN verified' = TRUE /\ phase' = "verifiedOk" ELSE phase' = "failed" /\ UNCHANGED verified
-              /\ UNCHANGED <<dest, tmp, got, lastSeen, synced>>
-Rename == phase = "verifiedOk" /\ dest' = "complete" /\ tmp' = "absent" /\ phase' = "committed" /\ UNCHANGED <<got, lastSeen, synced, verified>>
-\* producer failure / connection cut / short stream: any time before the fill completes
-FailInProcess == phase \in {"start", "filling"} /\ ~lastSeen /\ phase' = "failed" /\ UNCHANGED <<dest, tmp, got, lastSeen, synced, verified>>
-GuardDrop == phase = "failed" /\ tmp' = "absent" /\ phase' = "cleaned" /\ UNCHANGED <<dest, got, lastSeen, synced, verified>>
-Kill == phase \notin {"committed", "cleaned", "killed"} /\ phase' = "killed" /\ UNCHANGED <<dest, tmp, got, lastSeen, synced, verified>>
-Next == CreateTmp \/ WriteChunk \/ EndFill \/ Sync \/ (\E ok \in BOOLEAN : Verify(ok)) \/ Rename \/ FailInProcess \/ GuardDrop \/ Kill
+              /\ UNCHANGED <<dest, tmp, got, lastSeen, synced, mode>>
+\* TempFile::commit: rename(tmp, dest)
+Rename == phase = "verifiedOk" /\ dest' = tmp /\ tmp' = "absent" /\ phase' = "committed" /\ UNCHANGED <<got, lastSeen, synced, verified, mode>>
+\* producer failure / connection cut / short stream / trailer longer than the stream: any time before the fill completes
+FailInProcess == phase \in {"start", "filling"} /\ ~lastSeen /\ phase' = "failed" /\ UNCHANGED <<dest, tmp, got, lastSeen, synced, verified, mode>>
+\* a trailer-verified pull learns only at the end that the stream is shorter than the trailer
+FailAtEnd == phase = "filling" /\ lastSeen /\ phase' = "failed" /\ UNCHANGED <<dest, tmp, got, lastSeen, synced, verified, mode>>
+\* async only: the pull loop's error is surfaced after the consumer finished with a short file
+PullErrorSurfaces == mode = "async" /\ phase \in {"filled", "synced"} /\ ~lastSeen /\ phase' = "failed" /\ UNCHANGED <<dest, tmp, got, lastSeen, synced, verified, mode>>
+\* TempFile::drop: remove the temp file
+GuardDrop == phase = "failed" /\ tmp' = "absent" /\ phase' = "cleaned" /\ UNCHANGED <<dest, got, lastSeen, synced, verified, mode>>
+\* the process dies: nothing more happens
+Kill == phase \notin {"committed", "cleaned", "killed"} /\ phase' = "killed" /\ UNCHANGED <<dest, tmp, got, lastSeen, synced, verified, mode>>
+Next == CreateTmp \/ (\E full \in BOOLEAN : WriteChunk(full)) \/ SeeEnd \/ EndFill \/ Sync \/ (\E ok \in BOOLEAN : Verify(ok)) \/ Rename
+        \/ FailInProcess \/ FailAtEnd \/ PullErrorSurfaces \/ GuardDrop \/ Kill
 Spec == Init /\ [][Next]_vars
+StateBound == got <= Chunks
 DestNeverPartial == dest \in {PreDest, "complete"}
 PublishedOnlyWhenComplete == dest = "complete" => (lastSeen /\ synced /\ verified)
 FailureLeavesNothing == phase = "cleaned" => (dest = PreDest /\ tmp = "absent")
